@@ -258,26 +258,26 @@ func init() {
 
 	registerCheck(&CheckDef{Prop: "C02", Level: "model_checking", Technique: tE1,
 		Quick:       []Run{{Scenario: "qmax-leaf", Depth: 6, MapModes: []int{1}}, {Scenario: "qmax-parent", Depth: 6, MapModes: []int{1}}, {Scenario: "qmax-dynamic", Depth: 6, MapModes: []int{1}}, {Scenario: "gang-sparse-qmax", Depth: 6, MapModes: []int{1}}},
-		Thorough:    []Run{{Scenario: "gang-sparse-qmax", Depth: 8, MapModes: []int{1}}, {Scenario: "qmax-leaf", Depth: 7, MapModes: []int{1, 2}}, {Scenario: "qmax-parent", Depth: 7, MapModes: []int{1, 2}}, {Scenario: "qmax-dynamic", Depth: 7, MapModes: []int{1, 2}}},
+		Thorough:    []Run{{Scenario: "gang-sparse-qmax", Depth: 9, MapModes: []int{1}}, {Scenario: "qmax-leaf", Depth: 8, MapModes: []int{1, 2}}, {Scenario: "qmax-parent", Depth: 8, MapModes: []int{1, 2}}, {Scenario: "qmax-dynamic", Depth: 8, MapModes: []int{1, 2}}},
 		QuickBudget: 150 * time.Second, ThoroughBudget: 12 * time.Minute})
 	registerCheck(&CheckDef{Prop: "C04", Level: "model_checking", Technique: tE1,
 		Quick:       []Run{{Scenario: "si-basic", Depth: 6, MapModes: []int{1}}, {Scenario: "gang-si-Soft", Depth: 6, MapModes: []int{1}}, {Scenario: "gang-si-Hard", Depth: 5, MapModes: []int{1}}, {Scenario: "reserve-si", Depth: 6, MapModes: []int{1}}, {Scenario: "gang-si-same", Depth: 6, MapModes: []int{1}}, {Scenario: "reserve-bind-si", Depth: 6, MapModes: []int{1}}},
-		Thorough:    []Run{{Scenario: "gang-si-same", Depth: 8, MapModes: []int{1}}, {Scenario: "reserve-bind-si", Depth: 8, MapModes: []int{1, 2}}, {Scenario: "si-basic", Depth: 7, MapModes: []int{1, 2}}, {Scenario: "gang-si-Soft", Depth: 7, MapModes: []int{1, 2}}, {Scenario: "gang-si-Hard", Depth: 7, MapModes: []int{1}}, {Scenario: "reserve-si", Depth: 6, MapModes: []int{1}}},
+		Thorough:    []Run{{Scenario: "gang-si-same", Depth: 9, MapModes: []int{1}}, {Scenario: "reserve-bind-si", Depth: 9, MapModes: []int{1, 2}}, {Scenario: "si-basic", Depth: 8, MapModes: []int{1, 2}}, {Scenario: "gang-si-Soft", Depth: 8, MapModes: []int{1, 2}}, {Scenario: "gang-si-Hard", Depth: 8, MapModes: []int{1}}, {Scenario: "reserve-si", Depth: 7, MapModes: []int{1}}},
 		QuickBudget: 150 * time.Second, ThoroughBudget: 12 * time.Minute})
 	registerCheck(&CheckDef{Prop: "C06", Level: "model_checking", Technique: tE1,
 		Quick:       []Run{{Scenario: "gang-Soft", Depth: 6, MapModes: []int{1}}, {Scenario: "gang-Hard", Depth: 6, MapModes: []int{1}}, {Scenario: "gang-sparse", Depth: 6, MapModes: []int{1}}},
-		Thorough:    []Run{{Scenario: "gang-sparse", Depth: 8, MapModes: []int{1}}, {Scenario: "gang-Soft", Depth: 8, MapModes: []int{1, 2}}, {Scenario: "gang-Hard", Depth: 8, MapModes: []int{1, 2}}},
+		Thorough:    []Run{{Scenario: "gang-sparse", Depth: 9, MapModes: []int{1}}, {Scenario: "gang-Soft", Depth: 9, MapModes: []int{1, 2}}, {Scenario: "gang-Hard", Depth: 9, MapModes: []int{1, 2}}},
 		QuickBudget: 150 * time.Second, ThoroughBudget: 12 * time.Minute})
 	registerCheck(&CheckDef{Prop: "C09", Level: "model_checking", Technique: tE1,
 		Quick:       []Run{{Scenario: "reserve", Depth: 7, MapModes: []int{1}}, {Scenario: "reserve-bind", Depth: 6, MapModes: []int{1}}},
-		Thorough:    []Run{{Scenario: "reserve-bind", Depth: 8, MapModes: []int{1, 2}}, {Scenario: "reserve", Depth: 8, MapModes: []int{1, 2, 3}}},
+		Thorough:    []Run{{Scenario: "reserve-bind", Depth: 9, MapModes: []int{1, 2}}, {Scenario: "reserve", Depth: 9, MapModes: []int{1, 2, 3}}},
 		QuickBudget: 150 * time.Second, ThoroughBudget: 12 * time.Minute})
 	registerCheck(&CheckDef{Prop: "C10", Level: "model_checking", Technique: tE1,
 		Quick:       []Run{{Scenario: "lifecycle", Depth: 7, MapModes: []int{1}}, {Scenario: "gang-life-Soft", Depth: 6, MapModes: []int{1}}, {Scenario: "gang-life-Hard", Depth: 6, MapModes: []int{1}}, {Scenario: "lifecycle-late", Depth: 8, MapModes: []int{1}}},
-		Thorough:    []Run{{Scenario: "lifecycle-late", Depth: 10, MapModes: []int{1}}, {Scenario: "lifecycle", Depth: 8, MapModes: []int{1, 2}}, {Scenario: "gang-life-Soft", Depth: 7, MapModes: []int{1}}, {Scenario: "gang-life-Hard", Depth: 7, MapModes: []int{1}}},
+		Thorough:    []Run{{Scenario: "lifecycle-late", Depth: 11, MapModes: []int{1}}, {Scenario: "lifecycle", Depth: 9, MapModes: []int{1, 2}}, {Scenario: "gang-life-Soft", Depth: 8, MapModes: []int{1}}, {Scenario: "gang-life-Hard", Depth: 8, MapModes: []int{1}}},
 		QuickBudget: 150 * time.Second, ThoroughBudget: 12 * time.Minute})
 	registerCheck(&CheckDef{Prop: "C11", Level: "model_checking", Technique: tE1,
 		Quick:       []Run{{Scenario: "maxapps", Depth: 7, MapModes: []int{1}}, {Scenario: "maxapps-restart", Depth: 8, MapModes: []int{1}}},
-		Thorough:    []Run{{Scenario: "maxapps-restart", Depth: 10, MapModes: []int{1}}, {Scenario: "maxapps", Depth: 8, MapModes: []int{1, 2}}},
+		Thorough:    []Run{{Scenario: "maxapps-restart", Depth: 11, MapModes: []int{1}}, {Scenario: "maxapps", Depth: 9, MapModes: []int{1, 2}}},
 		QuickBudget: 150 * time.Second, ThoroughBudget: 12 * time.Minute})
 }
